@@ -40,3 +40,6 @@ table('C*', hist['first_run_missed'], set(hist['first_run_detected_without_input
       'Round 1 (two seeds per property, written while the checks were being built)')
 table('r2-C*', hist.get('round2_first_run_missed', {}), set(hist.get('round2_first_run_detected_without_input', [])),
       'Round 2 (one fresh seed per property, written against the finished checks)')
+if glob.glob(os.path.join(V, 'seeded', 'r3-C*')):
+    table('r3-C*', hist.get('round3_first_run_missed', {}), set(hist.get('round3_first_run_detected_without_input', [])),
+          'Round 3 (one more seed per property in less central code, after the round-2 follow-ups and the last repairs)')
